@@ -190,6 +190,8 @@ def c20_rf21(run):
     rf_mir2c.rf95(run)
     run.min_instances('RF95', 6)
     rf_vocab.rf103(run)
+    rf_vocab.rf118(run, True)
+    rf_proto.rf117(run)
     rf_mir2c.rf112(run)
     sh = run.shadow()
     rf_mir2c.rf112(sh, units=(run.control_tu('rf112_control.c'),))
@@ -231,6 +233,8 @@ def c10_vocab(run):
     rf_vocab.rf85(run)
     rf_vocab.rf103(run)
     rf_vocab.rf106(run)
+    rf_vocab.rf116(run)
+    rf_vocab.rf118(run, False)
 
 
 def c17_rf2(run):
